@@ -198,6 +198,41 @@ func searchLine(text string, docs [][]byte) string {
 	return b.String()
 }
 
+// one built filter applied to the documents, then to a run of documents it cannot evaluate (not JSON, not an object,
+// fields missing), then to the documents again: the answer for a document depends on the filter and that document only
+func historyLine(text string, docs [][]byte) (s string) {
+	defer func() {
+		if e := recover(); e != nil {
+			s = "H P"
+		}
+	}()
+	f, err := syz.BuildFilter(text)
+	if err != nil {
+		return "H same"
+	}
+	pass := func() string {
+		var b strings.Builder
+		for i, d := range docs {
+			if f(uint64(i), d) {
+				b.WriteString("T")
+			} else {
+				b.WriteString("F")
+			}
+		}
+		return b.String()
+	}
+	first := pass()
+	junk := [][]byte{[]byte("{"), nil, []byte("[1]"), []byte("\"x\""), []byte("{}"), []byte("{\"zz\":null}"), []byte("nul"), []byte("{\"a\":}")}
+	for k := 0; k < 40; k++ {
+		f(uint64(1000+k), junk[k%len(junk)])
+	}
+	second := pass()
+	if first == second {
+		return "H same"
+	}
+	return "H " + first + " " + second
+}
+
 func runFilter() {
 	data, err := os.ReadFile("/dev/stdin")
 	if err != nil {
@@ -224,6 +259,7 @@ func runFilter() {
 		} else {
 			fmt.Fprintln(out, "R"+v2[1:])
 		}
+		fmt.Fprintln(out, historyLine(text, docs))
 	}
 	out.Flush()
 }
